@@ -126,8 +126,9 @@ def check(run):
     for ol in fx.fn(R + '::on_lookup'):
         run.touch(ol)
         tag = 'udp' if 'udp' in ol.name else 'tcp'
-        er = [c for c in ol.calls() if (c.get('callee') or '').endswith('::erase') and q.render(ol, c.get('obj')) == 'm_queue']
-        run.check(len(er) == 1 and q.render(ol, er[0]['args'][0]) == 'm_queue.begin()' and len(er[0]['args']) == 1, 'R2k', 'pop-front', '%s<%s>' % (ol.norm, tag), ol.loc(), 'on_lookup does not remove exactly the front entry', 'erase(begin())')
+        er = [c for op, c in q.container_calls(ol, 'm_queue', {'pop_front'})]
+        allrm = [c for op, c in q.container_calls(ol, 'm_queue') if op in ('erase', 'pop_back', 'pop_front', 'clear')]
+        run.check(len(er) == 1 and len(allrm) == 1, 'R2k', 'pop-front', '%s<%s>' % (ol.norm, tag), ol.loc(), 'on_lookup does not remove exactly the front entry', 'erase(begin())')
         tk = [v for n in ol.all_nodes() if n['k'] == 'decl' for v in n['vars'] if 'm_queue.front()' in q.render(ol, v.get('init'))]
         run.check(len(tk) == 1, 'R2k', 'serve-front', '%s<%s>' % (ol.norm, tag), ol.loc(), 'the entry served is not the front one', 'serves front()')
         inv = [f for f in handlers.flows_in(fx, ol) if f.kind == 'invoke']
@@ -144,7 +145,7 @@ def check(run):
         sw = [c for c in cn.calls() if (c.get('callee') or '').split('::')[-1] == 'swap' and 'm_queue' in q.render(cn, c)]
         run.check(bool(sw) and q.on_all_paths(cn, sw), 'R2k', 'cancel-swaps', '%s<%s>' % (cn.norm, tag), cn.loc(), 'cancel() does not take the whole queue out before completing entries', 'm_queue.swap(local) first')
     # mutation kinds over the whole class
-    KINDS = {R + '::async_resolve': {'insert', 'emplace_back'}, R + '::on_lookup': {'erase'}, R + '::cancel': {'swap'}}
+    KINDS = {R + '::async_resolve': {'push_front', 'push_back'}, R + '::on_lookup': {'pop_front'}, R + '::cancel': {'swap'}}
     for fn in fx.repo_functions():
         if fn.d.get('defaulted') or q.top_function(fx, fn).cls != R:
             continue
@@ -152,7 +153,7 @@ def check(run):
             if not a.is_write or a.kind in ('arg',):
                 continue
             top = q.top_function(fx, fn).norm
-            ok = a.kind == 'method' and a.method in KINDS.get(top, ()) or a.kind == 'refarg' and top == R + '::cancel' or fn.kind == 'ctor'
+            ok = a.kind == 'method' and a.site['k'] == 'call' and q.canon_op(fn, a.site) in KINDS.get(top, ()) or a.kind == 'refarg' and top == R + '::cancel' or fn.kind == 'ctor'
             run.check(ok, 'R2k', 'queue-ops', '%s: %s%s on m_queue' % (top, a.kind, ':' + a.method if a.method else ''), fn.loc(a.node), 'the lookup queue is mutated by %s in %s, outside the FIFO discipline' % (a.method or a.kind, top), 'allowed operation', nontrivial=False)
     # destructor (shared with C04)
     for rec in fx.record(R):
